@@ -13,7 +13,8 @@ EXPLANATION = (
     "timeout derives from the heap's minimum, passed timers are popped every iteration, the heap is a min-heap; "
     "(c) F7: every time that is re-armed by its own firing is provably > now (constant delays ≥ 1, payload invariant "
     "next_delay ≥ 1, interface-check interval > 0).  Decides pairing and positivity, not iterations per unit of time."
-    " The refresh ladder (C11b) is also checked here: a mark that does not move forward makes the loop spin.")
+    " The refresh ladder (C11b) is also checked here: a mark that does not move forward makes the loop spin."
+    " Passed timers are popped with a clock sample taken after the poll of the same iteration; every caller of updated_refresh_time hands the new refresh mark back to be armed.")
 UNDECIDED = ["completeness of the pending-time table (a new kind of deadline stored in a new ad-hoc field is invisible)",
              "iterations per unit of time as a number"]
 ASSUMPTIONS = ["the pending-time table lists every field that holds a due time (confirmed by reading; stated in DESIGN.md)"]
